@@ -70,10 +70,24 @@ def run(prog, rep, tier):
         MUs = ("self", "mean")
         base_ok = zeros_of(st.base, shapes=[("self", "p"), ("ext", "len", (MUs,), ()), ("attr", MUs, "shape"), ("sub", ("attr", MUs, "shape"), ("const", 0)),
                                             ("ext", "len", (("self", "covariance"),), ())], like=[MUs])
-        ok = base_ok and M.idx_key(st.idx) == PXs and st.aug is None
+        # the write positions are S itself or a re-ordering of S (sorted, S[argsort(S)]): the same set of entries
+        L_ = M.idx_key(st.idx)
+
+        def reorder_of(k_):
+            if k_ == PXs:
+                return True
+            if isinstance(k_, tuple) and k_[0] == "ext" and k_[1] in ("sorted", "numpy.sort") and len(k_[2]) == 1:
+                return reorder_of(M.idx_key(k_[2][0]))
+            if isinstance(k_, tuple) and k_[0] == "sub" and len(k_) == 3 and reorder_of(M.idx_key(k_[1])) and isinstance(k_[2], tuple) and k_[2][0] == "ext" and \
+                    k_[2][1] == "numpy.argsort" and len(k_[2][2]) == 1 and reorder_of(M.idx_key(k_[2][2][0])):
+                return True
+            return False
+        ok = base_ok and reorder_of(L_) and st.aug is None
         rep.check("WRITESET.coefs", ok, fwhere(f, st.node), "coefficients = zeros(p) written only at the regressors S",
                   "coefficient vector is not `zeros(p)` written at S only (base %s, index %s)" % (fmt(st.base), fmt(st.idx)))
-        ref = mul(rinv(rB(C, PXs, PXs)), rB(C, SY, PXs))
+        # the value stored at positions L must be the solution *in the order of L*
+        L_ref = L_ if reorder_of(L_) else PXs
+        ref = mul(rinv(rB(C, L_ref, L_ref)), rB(C, SY, L_ref))
         for assume, term in split_phis(st.value):
             full = any(strip_wrappers(c) in (("cmp", "==", ("ext", "len", (PXs,), ()), ("self", "p")), ("cmp", "==", ("self", "p"), ("ext", "len", (PXs,), ()))) and pol
                        for c, pol in assume)
@@ -91,7 +105,8 @@ def run(prog, rep, tier):
             def make_point(rnd, full=full):
                 from .. import mnf_eval as ME
                 p = 5
-                return ME.Point(p, {C: ME.rand_spd(rnd, p), MU: ME.rand_vec(rnd, p)}, {Py: 2, PXs: [3, 0, 4, 1, 2] if full else [4, 1]})
+                # a regressor list in *cyclic* order: a permutation applied twice instead of inverted shows only there
+                return ME.Point(p, {C: ME.rand_spd(rnd, p), MU: ME.rand_vec(rnd, p)}, {Py: 2, PXs: [3, 0, 4, 1, 2] if full else [4, 1, 3]}, mnf=M)
             decide_formula(rep, "FORMULA.coefs", fwhere(f, st.node, construct=label), got, ref, label, make_point)
     from .common import hidden_state
     hidden_state(rep, "HISTORY.regress", fwhere(f), [r_.value for r_ in S.select("return", qname=f.qname)] + [s_.value for s_ in stores], {"mean", "covariance", "p"})
@@ -135,6 +150,9 @@ def run(prog, rep, tier):
     rep.check("NODEP.mse-mean", not reads_mean, fwhere(f2), "mse never reads self.mean nor the intercept", "mse depends on the means")
     rep.assume("self.covariance is symmetric; equality is over the reals")
     # no branch / index of the computation may depend on the *values* of the moments
+    from .common import no_foreign_writes
+    no_foreign_writes(rep, prog, ND + "regress", rule="OWN.regress")
+    no_foreign_writes(rep, prog, ND + "mse", rule="OWN.mse")
     pattern_method(prog, rep, ND + "regress", ["mean", "covariance"], rule="NODECISION")
     pattern_method(prog, rep, ND + "mse", ["mean", "covariance"], rule="NODECISION")
     rep.require_count("FORMULA", 3)
